@@ -81,6 +81,9 @@ func (v Value) string() string {
 	case bool:
 		return strconv.FormatBool(value)
 	case int:
+		if int64(value) > 1<<53 || int64(value) < -(1<<53) {
+			return floatToString(float64(value), 64) // beyond 2**53 a Number prints the digits of the double (9.8.1)
+		}
 		return strconv.FormatInt(int64(value), 10)
 	case int8:
 		return strconv.FormatInt(int64(value), 10)
@@ -89,8 +92,14 @@ func (v Value) string() string {
 	case int32:
 		return strconv.FormatInt(int64(value), 10)
 	case int64:
+		if value > 1<<53 || value < -(1<<53) {
+			return floatToString(float64(value), 64) // beyond 2**53 a Number prints the digits of the double (9.8.1)
+		}
 		return strconv.FormatInt(value, 10)
 	case uint:
+		if uint64(value) > 1<<53 {
+			return floatToString(float64(value), 64) // beyond 2**53 a Number prints the digits of the double (9.8.1)
+		}
 		return strconv.FormatUint(uint64(value), 10)
 	case uint8:
 		return strconv.FormatUint(uint64(value), 10)
@@ -99,6 +108,9 @@ func (v Value) string() string {
 	case uint32:
 		return strconv.FormatUint(uint64(value), 10)
 	case uint64:
+		if value > 1<<53 {
+			return floatToString(float64(value), 64) // beyond 2**53 a Number prints the digits of the double (9.8.1)
+		}
 		return strconv.FormatUint(value, 10)
 	case float32:
 		if value == 0 {
